@@ -907,7 +907,16 @@ def enumerate_specs(ctx, seed):
 def conformance_specs(ctx, specs, seed):
     """Cases that are also pushed through the installed `_molli_run` console script."""
     if ctx.thorough:
-        out = [s for s in specs if len(s["cmds"]) <= 2]
+        # every list of length <= 2 over the ordinary alphabet; for the additional failure modes the lists of
+        # length <= 2 over {P, Wa} + failure modes, all named / none named, nothing or a.dat requested
+        out = []
+        for s in specs:
+            if len(s["cmds"]) > 2:
+                continue
+            if not any(k in NEW_FAILS for k in s["cmds"]):
+                out.append(s)
+            elif set(s["cmds"]) <= {"P", "Wa"} | set(NEW_FAILS) and (all(s["named"]) or not any(s["named"])) and s["ret"] in ([], ["a.dat"]):
+                out.append(s)
         # every first-failure position of length 3 and 4, with files requested and everything named
         for s in specs:
             n = len(s["cmds"])
